@@ -60,6 +60,7 @@ M0(c) ==
     returned |-> 0,
     cancelled|-> FALSE,         \* the caller cancelled
     mustSignal |-> {},          \* steps with a cancel handler whose plugin was executing when their context ended
+    finDecl  |-> {},            \* steps that declared themselves finished and have not yet delivered their completion
     sigRecv  |-> {},            \* steps whose plugin received the cancel signal
     sigSent  |-> {},            \* steps the cancel signal was enqueued for (or whose plugin had already finished)
     forced   |-> {},            \* steps whose connection was force closed while the plugin executed
@@ -158,12 +159,16 @@ OnHEnterS(mm, e) ==
       c5 == IF e.hc = "CO" /\ s \in mm.completed THEN {<<"C12", "second-completion", s>>} ELSE {}
       c6 == IF s \in mm.completed THEN {<<"C12", "stage-change-after-completion", s>>} ELSE {}
       c7 == IF s \in mm.closedRet THEN {<<"C12", "notification-after-close-returned", s>>} ELSE {}
+      \* a step that declares itself finished delivers its completion next: a stage change in between means the step
+      \* reported "finished" while it still held the result the run waits for (the detector counts it as done)
+      c10 == IF e.hc # "CO" /\ s \in mm.finDecl THEN {<<"C09", "step-declared-finished-before-handing-over-its-result", s \o "." \o e.prev>>} ELSE {}
       \* what a loop step reports is judged as the step reports it
       c9 == IF known /\ KindOf(WF, s) = "foreach" /\ e.out # "nil" /\ e.prev \in {"outputs", "failed"}
               THEN ForeachRules(mm, s, e) ELSE {}
   IN  VS([base EXCEPT !.fin = @ \cup {<<s, e.prev>>},
-                      !.completed = IF e.hc = "CO" THEN @ \cup {s} ELSE @],
-         c1 \cup c2 \cup c3 \cup c4 \cup c5 \cup c6 \cup c7 \cup c9)
+                      !.completed = IF e.hc = "CO" THEN @ \cup {s} ELSE @,
+                      !.finDecl = IF e.hc = "CO" THEN @ \ {s} ELSE @],
+         c1 \cup c2 \cup c3 \cup c4 \cup c5 \cup c6 \cup c7 \cup c9 \cup c10)
 
 \* the run loop makes the output of a finished stage available to expressions (in the handler of the notification,
 \* after it resolved the stage's nodes): THIS value - not the one the step handed over, which the run loop may still
@@ -181,9 +186,10 @@ OnHEnterF(mm, e) ==
   LET s == e.step
       c1 == IF <<s, e.stage>> \in mm.fin THEN {<<"C12", "stage-declared-impossible-after-finished", s \o "." \o e.stage>>} ELSE {}
       c2 == IF s \in mm.closedRet THEN {<<"C12", "notification-after-close-returned", s>>} ELSE {}
+      c3 == IF s \in mm.finDecl THEN {<<"C09", "step-declared-finished-before-handing-over-its-result", s \o "." \o e.stage>>} ELSE {}
   IN  VS([mm EXCEPT !.h = [active |-> TRUE, kind |-> "F", step |-> s, prev |-> e.stage, out |-> "nil", pre |-> mm.g.st],
                     !.popped = {}, !.ev = NoEval, !.imp = @ \cup {<<s, e.stage>>}],
-         c1 \cup c2)
+         c1 \cup c2 \cup c3)
 
 OnPop(mm, e) ==
   LET mine   == mm.g.ready
@@ -272,7 +278,8 @@ OnErrPush(mm, e) ==
 \* waiting for an input that has been provided and not yet taken (the fallback detector trusts that declaration)
 InputStages == {"deploy", "enabling", "starting", "execute"}   \* plugin and loop steps
 OnSSet(mm, e) ==
-  LET mm1 == [mm EXCEPT !.sst = {x \in @ : x[1] # e.step} \cup {<<e.step, e.stage>>}]
+  LET mm1 == [mm EXCEPT !.sst = {x \in @ : x[1] # e.step} \cup {<<e.step, e.stage>>},
+                        !.finDecl = IF e.state = "finished" /\ e.step \notin mm.completed THEN @ \cup {e.step} ELSE @ \ {e.step}]
   IN  IF e.state = "waiting_for_input" /\ e.stage \in InputStages /\ <<e.step, e.stage>> \in mm.slots
         THEN V(mm1, "C09", "step-declared-waiting-although-its-input-was-provided", e.step \o "." \o e.stage)
         ELSE mm1
@@ -326,7 +333,11 @@ OnReturn(mm, e) ==
       c9 == IF e.iserr /\ e.bug THEN {<<"C08", "internal-bug-error-returned", "">>} ELSE {}
       c11 == IF mm.mustSignal \ mm.sigSent # {} THEN {<<"C06", "executing-plugin-with-cancel-handler-was-not-signalled", CHOOSE x \in mm.mustSignal \ mm.sigSent : TRUE>>} ELSE {}
       c10 == IF mm.evalFailed /\ ~e.iserr THEN {<<"C07", "evaluation-failure-did-not-surface-as-error", e.id>>} ELSE {}
-  IN  VS([mm EXCEPT !.returned = @ + 1], c1 \cup c2 \cup c3 \cup c4 \cup c5 \cup c6 \cup c7 \cup c8 \cup c9 \cup c10 \cup c11)
+      \* plugins executing inside the runs a loop step of THIS run started for its items (at any depth) belong to this run:
+      \* none of them may still be executing when it returns (counted by the driver between the item runs' plugin
+      \* start/end events and this Return event)
+      c12 == IF Case.subLiveAtReturn > 0 THEN {<<"C06", "plugin-of-a-loop-item-still-executing-at-return", ToString(Case.subLiveAtReturn)>>} ELSE {}
+  IN  VS([mm EXCEPT !.returned = @ + 1], c1 \cup c2 \cup c3 \cup c4 \cup c5 \cup c6 \cup c7 \cup c8 \cup c9 \cup c10 \cup c11 \cup c12)
 
 Dispatch(mm, e) ==
   CASE e.ev = "HEnter" /\ e.h = "K" -> OnKick(mm, e)
